@@ -352,6 +352,71 @@ def _check_named_regex(pat: str):
     return None
 
 
+def _match_var(lp, site):
+    for a in ast.walk(lp):
+        if isinstance(a, ast.Assign) and a.value is site and len(a.targets) == 1 and isinstance(a.targets[0], ast.Name):
+            return a.targets[0].id
+        if isinstance(a, ast.NamedExpr) and a.value is site:
+            return a.target.id
+    return None
+
+
+def _is_named_test(t, mv) -> bool:
+    return mv is not None and unparse(t) in (mv, "{} is not None".format(mv), "bool({})".format(mv))
+
+
+def _named_only_strip(lp, tg, av, site) -> bool:
+    """`tg` trims the value on the named path only: `if m: v = v.strip()` / `v = v.strip() if m else v` (m = the match object of
+    the named-argument regex).  Positional values are never reached by it."""
+    mv = _match_var(lp, site)
+    v = tg.value if isinstance(tg, ast.Assign) else None
+    strip = lambda e: isinstance(e, ast.Call) and isinstance(e.func, ast.Attribute) and e.func.attr == "strip" and not e.args and unparse(e.func.value) == av
+    if v is None:
+        return False
+    if isinstance(v, ast.IfExp) and _is_named_test(v.test, mv) and strip(v.body) and unparse(v.orelse) == av:
+        return True
+    if strip(v):
+        for n in ast.walk(lp):
+            if isinstance(n, ast.If) and _is_named_test(n.test, mv) and any(tg is x for b in n.body for x in ast.walk(b)):
+                return True
+    return False
+
+
+def rule_r12(ctx) -> RuleResult:
+    """MediaWiki trims a named argument's value when it is *read*: `trim(expand(value))` (PPTemplateFrame_Hash::getNamedArgument).
+    The named-argument regex trims the text as written; that is the same thing only while the expansion of the value neither
+    starts nor ends with white space.  `{{t|x={{pad}}}}` with `Template:pad` = " b " passes "b" in the reference and " b " when
+    the value is not trimmed again after it was expanded.  Rule: on the named path, between the expansion of the value and the
+    store into the argument map, the value is stripped.  Found on the unchanged tree after the agent seeding C08 in round 10
+    remarked on it; repaired by F30."""
+    rr = RuleResult("C04.R12", "a named argument's value is trimmed after it has been expanded", min_instances=1)
+    tb = X.template_branch(ctx)
+    loops = [n for st in tb for n in ast.walk(st) if isinstance(n, ast.For) and "args[1:]" in unparse(n.iter)]
+    if not loops:
+        raise AnalysisError("template branch: argument loop vanished")
+    lp = loops[-1]
+    av = unparse(lp.target)
+    sites = [n for n in ast.walk(lp) if isinstance(n, ast.Call) and (unparse(n.func) in ("re.match", "re.fullmatch") or (
+        isinstance(n.func, ast.Attribute) and n.func.attr in ("match", "fullmatch") and unparse(n.func.value) != "re"))]
+    if not sites:
+        raise AnalysisError("argument loop: named-argument regex not found")
+    exps = [a for a in ast.walk(lp) if isinstance(a, ast.Assign) and unparse(a.targets[0]) == av and isinstance(a.value, ast.Call)
+            and unparse(a.value.func) == "expand_recurse" and a.value.args and unparse(a.value.args[0]) == av]
+    if not exps:
+        raise AnalysisError("argument loop: expansion of the argument value not recognised (inconclusive)")
+    after = [a for a in ast.walk(lp) if isinstance(a, ast.Assign) and unparse(a.targets[0]) == av and a.lineno > exps[-1].lineno
+             and _named_only_strip(lp, a, av, sites[0])]
+    wrapped = [a for a in exps if False]
+    if after:
+        rr.ok(X.RECURSE, "named path: `{}` after the expansion".format(unparse(after[0])))
+    else:
+        rr.bad(Finding("C04.R12", X.CORE, X.RECURSE, "named argument value stored as expanded",
+                       "on the named path the value is trimmed by the regex before it is expanded and not again afterwards: white space at the "
+                       "ends of a nested call's expansion (`{{t|x={{pad}}}}`, Template:pad = ` b `) reaches the parameter, where the reference "
+                       "semantics passes the trimmed text", exps[-1].lineno))
+    return rr
+
+
 def rule_r3(ctx) -> RuleResult:
     rr = RuleResult("C04.R3", "named arguments trimmed by the regex, positional ones untouched, caller's frame, later duplicates win", min_instances=5)
     tb = X.template_branch(ctx)
@@ -406,6 +471,8 @@ def rule_r3(ctx) -> RuleResult:
                 rr.ok(X.RECURSE, txt, {"assign": txt, "kind": "expanded in the caller's frame"})
             else:
                 rr.bad(Finding("C04.R3", X.CORE, X.RECURSE, txt, "argument values are not expanded in the caller's frame (`parent`)", tg.lineno))
+        elif _named_only_strip(lp, tg, av, site):
+            rr.ok(X.RECURSE, txt, {"assign": txt, "kind": "named path only: trimmed again after expansion"})
         else:
             rr.bad(Finding("C04.R3", X.CORE, X.RECURSE, txt,
                            "the argument value is rewritten by something other than the named-argument regex or expansion "
@@ -908,4 +975,4 @@ def rule_r11(ctx) -> RuleResult:
 
 
 def run(ctx) -> list:
-    return [rule_r10(ctx), rule_r1(ctx), rule_r2(ctx), rule_r3(ctx), rule_r4(ctx), rule_r5(ctx), rule_r6(ctx), rule_r7(ctx), rule_r8(ctx), rule_r9(ctx), rule_r11(ctx)]
+    return [rule_r10(ctx), rule_r1(ctx), rule_r2(ctx), rule_r3(ctx), rule_r4(ctx), rule_r5(ctx), rule_r6(ctx), rule_r7(ctx), rule_r8(ctx), rule_r9(ctx), rule_r11(ctx), rule_r12(ctx)]
